@@ -5,6 +5,7 @@ import (
 	"go/ast"
 	"go/token"
 	"go/types"
+	"golang.org/x/tools/go/ssa"
 )
 
 func init() {
@@ -517,8 +518,8 @@ func checkC20(r *Run) {
 	r.Rule("R1", "escaping helpers delegate to the standard escapers as the last step: every success return of htmlEscape is template.HTMLEscapeString of the string (or block rendering); jsEscape IS template.JSEscapeString", 2)
 	r.Rule("R2", "raw is the identity conversion of its parameter (and the sink writes template.HTML verbatim, C01.R2)", 1)
 	r.Rule("R3", "toJSON returns template.HTML of the unmodified json.Marshal output on every success path; errors propagate; nothing in the module switches HTML escaping of JSON off", 2)
-	r.Rule("R4", "truncate never splits a character: every slice and every length compared with size is taken on []rune", 2)
-	r.Rule("R5", "truncate bounds: the prefix slice is dominated by 'len(runes) <= size -> return s' and 'len(trail runes) >= size -> return trail'; the result is prefix + trail", 2)
+	r.Rule("R4", "truncate never splits a character: every slice and every length compared with size is taken on []rune", 1)
+	r.Rule("R5", "truncate bounds: the prefix slice is dominated by 'len(runes) <= size -> return s' and 'len(trail runes) >= size -> return trail'; the result is prefix + trail", 1)
 	r.Rule("R6", "option access: options are read with comma-ok assertions and the options map is never written", 2)
 	escapersRule(r, "R1")
 	rawRule(r, "R2")
@@ -611,49 +612,49 @@ func escapersRule(r *Run, rule string) {
 		r.Lost(rule, "function registered as htmlEscape")
 		return
 	}
-	info := f.Pkg.TypesInfo
-	sig := f.Obj.Type().(*types.Signature)
-	sParam := sig.Params().At(0)
+	fn := w.SSAFunc(f)
+	if fn == nil || len(fn.Params) < 1 {
+		r.Lost(rule, "SSA form of htmlEscape")
+		return
+	}
+	paths, ok := walkPaths(fn, nil, func(caller, callee *ssa.Function) bool { return callee.Pkg == fn.Pkg })
+	if !ok {
+		r.Lost(rule, "paths of htmlEscape")
+		return
+	}
+	sParam := ssa.Value(fn.Params[0])
 	n := 0
-	for _, ret := range returnsIn(f.Decl.Body) {
-		if len(ret.Results) != 2 || !isNilIdent(info, ret.Results[1]) {
+	for _, p := range paths {
+		if p.end != "return" || len(p.results) != 2 || !isNilErrorResult(p.results[1]) {
 			continue
 		}
 		n++
-		c, ok := unparen(ret.Results[0]).(*ast.CallExpr)
-		if ok && (funcIs(calleeOf(info, c), htmlTplPath, "HTMLEscapeString") || funcIs(calleeOf(info, c), "html", "EscapeString")) && len(c.Args) == 1 && objOf(info, c.Args[0]) == sParam {
-			r.Ok(rule, f.Name(), "return "+short(w.Fset, c), w.Pos(ret.Pos()), "the standard escaper applied last, nothing appended")
+		res := p.resolve(p.results[0])
+		good := false
+		what := "the text"
+		if c, isCall := res.(*ssa.Call); isCall && len(c.Call.Args) == 1 {
+			if cal := c.Call.StaticCallee(); cal != nil && cal.Pkg != nil && ((cal.Pkg.Pkg.Path() == htmlTplPath && cal.Name() == "HTMLEscapeString") || (cal.Pkg.Pkg.Path() == "html" && cal.Name() == "EscapeString")) {
+				arg := p.resolve(c.Call.Args[0])
+				if arg == sParam {
+					good = true
+				}
+				if ex, isEx := arg.(*ssa.Extract); isEx && ex.Index == 0 {
+					if bc, isBC := ex.Tuple.(*ssa.Call); isBC && bc.Call.IsInvoke() && (bc.Call.Method.Name() == "Block" || bc.Call.Method.Name() == "BlockWith") {
+						good, what = true, "the block's rendering"
+					}
+				}
+			}
+		}
+		con := "success return: standard escaper applied to " + what
+		if good {
+			r.Ok(rule, f.Name(), con, w.Pos(p.ret.Pos()), "the standard escaper applied last, nothing appended")
 		} else {
-			r.Bad(rule, f.Name(), "return "+short(w.Fset, ret.Results[0]), w.Pos(ret.Pos()), "htmlEscape's result must be exactly template.HTMLEscapeString of its input")
+			r.Bad(rule, f.Name(), "success return that is not the standard escaper's output", w.Pos(p.ret.Pos()), "htmlEscape's result must be exactly template.HTMLEscapeString of its input (or of the block's rendering)")
 		}
 	}
 	if n == 0 {
 		r.Bad(rule, f.Name(), "no success return", w.Pos(f.Decl.Pos()), "htmlEscape never succeeds")
 	}
-	// s is reassigned only from help.Block()
-	inspectBody(f.Decl.Body, false, func(nd ast.Node) bool {
-		as, ok := nd.(*ast.AssignStmt)
-		if !ok {
-			return true
-		}
-		for i, l := range as.Lhs {
-			if objOf(info, l) != sParam {
-				continue
-			}
-			good := false
-			if len(as.Rhs) == 1 && i == 0 {
-				if c, ok := as.Rhs[0].(*ast.CallExpr); ok {
-					if cal := calleeOf(info, c); cal != nil && (cal.Name() == "Block" || cal.Name() == "BlockWith") {
-						good = true
-					}
-				}
-			}
-			if !good {
-				r.Bad(rule, f.Name(), "input rewritten "+short(w.Fset, as), w.Pos(as.Pos()), "the text to escape may only be replaced by the block's rendering")
-			}
-		}
-		return true
-	})
 }
 
 func rawRule(r *Run, rule string) {
@@ -780,144 +781,13 @@ func truncateRule(r *Run) {
 	}
 	info := f.Pkg.TypesInfo
 	sig := f.Obj.Type().(*types.Signature)
-	sParam := sig.Params().At(0)
 	var optsP *types.Var
 	for i := 0; i < sig.Params().Len(); i++ {
 		if _, ok := sig.Params().At(i).Type().Underlying().(*types.Map); ok {
 			optsP = sig.Params().At(i)
 		}
 	}
-	isRunes := func(e ast.Expr) bool {
-		tv, ok := info.Types[e]
-		if !ok {
-			return false
-		}
-		sl, ok := tv.Type.Underlying().(*types.Slice)
-		if !ok {
-			return false
-		}
-		b, ok := sl.Elem().(*types.Basic)
-		return ok && b.Kind() == types.Int32
-	}
-	// size variable: the int local read from opts["size"]
-	var sizeVar, trailVar types.Object
-	inspectBody(f.Decl.Body, false, func(n ast.Node) bool {
-		switch x := n.(type) {
-		case *ast.AssignStmt:
-			if len(x.Lhs) == 1 && len(x.Rhs) == 1 {
-				if v, ok := constInt(info, x.Rhs[0]); ok && v == 50 {
-					sizeVar = objOf(info, x.Lhs[0])
-				}
-				if s, ok := constString(info, x.Rhs[0]); ok && s == "..." {
-					trailVar = objOf(info, x.Lhs[0])
-				}
-			}
-		}
-		return true
-	})
-	// R4
-	n := 0
-	inspectBody(f.Decl.Body, false, func(nd ast.Node) bool {
-		switch x := nd.(type) {
-		case *ast.SliceExpr:
-			n++
-			if isRunes(x.X) {
-				r.Ok("R4", f.Name(), "slice "+short(w.Fset, x), w.Pos(x.Pos()), "on []rune")
-			} else {
-				r.Bad("R4", f.Name(), "slice "+short(w.Fset, x), w.Pos(x.Pos()), "the text is cut on bytes: a multi-byte character can be split")
-			}
-		case *ast.BinaryExpr:
-			// len(X) <op> size
-			for _, side := range []ast.Expr{x.X, x.Y} {
-				c, ok := unparen(side).(*ast.CallExpr)
-				if !ok || builtinName(info, c) != "len" {
-					continue
-				}
-				other := x.Y
-				if side == x.Y {
-					other = x.X
-				}
-				if sizeVar == nil || !mentions(info, other, sizeVar) {
-					continue
-				}
-				n++
-				if isRunes(c.Args[0]) {
-					r.Ok("R4", f.Name(), "length "+short(w.Fset, x), w.Pos(x.Pos()), "character count")
-				} else {
-					r.Bad("R4", f.Name(), "length "+short(w.Fset, x), w.Pos(x.Pos()), "size is compared with a BYTE length: a string of at most size characters but more bytes is cut although it fits")
-				}
-			}
-		}
-		return true
-	})
-	if n == 0 {
-		r.Bad("R4", f.Name(), "no rune-based slicing found", w.Pos(f.Decl.Pos()), "truncate must cut on characters")
-	}
-	// R5: statement order at top level
-	var retS, retTrail, final token.Pos
-	var sRunes, tRunes types.Object
-	inspectBody(f.Decl.Body, false, func(nd ast.Node) bool {
-		if as, ok := nd.(*ast.AssignStmt); ok && len(as.Lhs) == 1 && len(as.Rhs) == 1 {
-			if c, ok := unparen(as.Rhs[0]).(*ast.CallExpr); ok {
-				if _, isConv := isConversion(info, c); isConv && isRunes(c) && len(c.Args) == 1 {
-					switch objOf(info, c.Args[0]) {
-					case types.Object(sParam):
-						sRunes = objOf(info, as.Lhs[0])
-					case trailVar:
-						tRunes = objOf(info, as.Lhs[0])
-					}
-				}
-			}
-		}
-		return true
-	})
-	lenOf := func(e ast.Expr, o types.Object) bool {
-		c, ok := unparen(e).(*ast.CallExpr)
-		return ok && builtinName(info, c) == "len" && o != nil && objOf(info, c.Args[0]) == o
-	}
-	for _, st := range f.Decl.Body.List {
-		switch x := st.(type) {
-		case *ast.IfStmt:
-			be, ok := unparen(x.Cond).(*ast.BinaryExpr)
-			if !ok || len(x.Body.List) != 1 {
-				continue
-			}
-			ret, ok := x.Body.List[0].(*ast.ReturnStmt)
-			if !ok || len(ret.Results) != 1 {
-				continue
-			}
-			if be.Op == token.LEQ && lenOf(be.X, sRunes) && objOf(info, be.Y) == sizeVar && objOf(info, ret.Results[0]) == types.Object(sParam) {
-				retS = x.Pos()
-			}
-			if be.Op == token.GEQ && lenOf(be.X, tRunes) && objOf(info, be.Y) == sizeVar && objOf(info, ret.Results[0]) == trailVar {
-				retTrail = x.Pos()
-			}
-		case *ast.ReturnStmt:
-			final = x.Pos()
-			// string(runesS[:size-len(runesTrail)]) + trail
-			good := false
-			if be, ok := unparen(x.Results[0]).(*ast.BinaryExpr); ok && be.Op == token.ADD && objOf(info, be.Y) == trailVar {
-				if c, ok := unparen(be.X).(*ast.CallExpr); ok && len(c.Args) == 1 {
-					if se, ok := unparen(c.Args[0]).(*ast.SliceExpr); ok && se.Low == nil && objOf(info, se.X) == sRunes {
-						if sub, ok := unparen(se.High).(*ast.BinaryExpr); ok && sub.Op == token.SUB && objOf(info, sub.X) == sizeVar && lenOf(sub.Y, tRunes) {
-							good = true
-						}
-					}
-				}
-			}
-			if good {
-				r.Ok("R5", f.Name(), "result = string(runes[:size-len(trail runes)]) + trail", w.Pos(x.Pos()), "prefix plus trail")
-			} else {
-				r.Bad("R5", f.Name(), "shape of the truncated result "+short(w.Fset, x), w.Pos(x.Pos()), "the result must be the first size-len(trail) characters followed by the trail")
-			}
-		}
-	}
-	if retS.IsValid() && retTrail.IsValid() && final.IsValid() && retS < final && retTrail < final {
-		r.Ok("R5", f.Name(), "slice dominated by both early returns", w.Pos(f.Decl.Pos()), "len(runes) > size and len(trail) < size hold at the slice: 0 < size-len(trail) <= len(runes)")
-	} else {
-		r.Bad("R5", f.Name(), "early returns before the slice", w.Pos(f.Decl.Pos()),
-			"the prefix slice needs both guards before it: 'if len(runes) <= size { return s }' and 'if len(trail runes) >= size { return trail }' (otherwise the bound is negative or past the end)")
-	}
+	truncateBoundsSSA(r, f)
 	// R6
 	nOpt := 0
 	inspectBody(f.Decl.Body, false, func(nd ast.Node) bool {
